@@ -250,6 +250,7 @@ class Real:
         self.kept = []                    # containers exchanged with the library (C12)
         self._shared_ulists = {}
         self._shared_vlists = {}
+        self._hooks = {}
         return "ok"
 
     def vname(self, v):
@@ -296,6 +297,10 @@ class Real:
         if k not in self.filters1:
             self.filters1[k] = (FalsyTableFilter if k % 3 == 1 else TableFilter)(self, k, 1)
         return self.filters1[k]
+
+    def hook_of(self, uni):
+        """ONE bound-method object per universe (callers store the same callback on several vertices)"""
+        return self._hooks.setdefault(id(uni), uni.add_vertex)
 
     def inst_name(self, table, obj, prefix):
         for i, o in enumerate(table):
@@ -622,7 +627,7 @@ class Real:
                 # a bound method of a universe among the constructor's attributes (so that it precedes the
                 # private attributes in the instance dict)
                 attrs = dict(attrs or {})
-                attrs["hook"] = self.pv(hook).add_vertex
+                attrs["hook"] = self.hook_of(self.pv(hook))
             v = cls(links=ls, universes=uarg, attributes=attrs,
                     uid=(int(uid) if uid else None))
             return "ok V%d" % self.reg_v(v)
@@ -790,7 +795,7 @@ class Real:
                 for i in range(int(spec[1])):
                     val = (i % 7, val)
             elif spec[0] == "bound":
-                val = self.pv(spec[1]).add_vertex
+                val = self.hook_of(self.pv(spec[1]))
             elif spec[0] == "byval":
                 val = BYVALUE["Tag"](int(spec[1]))
             elif spec[0] == "big":
